@@ -741,6 +741,9 @@ func specArrayOf(o Object, snap []Object, from, n int) bool {
 	})
 }
 
+// specNumOrBool: int, uint, float, char or bool operand.
+func specNumOrBool(o Object) bool { return o != nil && specIsNum(o) }
+
 // specIsBoxed: the slot holds a captured (boxed) local.
 func specIsBoxed(o Object) bool {
 	_, ok := o.(*ObjectPtr)
